@@ -355,10 +355,22 @@ func (c *Ctx) execOne(args []string, inExec bool) Exp {
 					return NilExp()
 				}
 				return BulkExp(s.Name)
+			case "list", "info", "id", "kill", "unblock", "no-evict", "reply", "pause", "unpause", "caching", "getredir", "tracking", "trackinginfo", "setinfo", "help", "no-touch":
+				return UnspecRO("introspection command not modelled")
 			}
+			return ErrExp("ERR") // unknown subcommand
+		}
+		return ErrExp("ERR") // CLIENT without a subcommand
+	case "command":
+		if len(args) >= 2 {
+			switch strings.ToLower(args[1]) {
+			case "count", "docs", "getkeys", "getkeysandflags", "info", "list", "help":
+				return UnspecRO("introspection command not modelled")
+			}
+			return ErrExp("ERR") // unknown subcommand
 		}
 		return UnspecRO("introspection command not modelled")
-	case "command", "info":
+	case "info":
 		return UnspecRO("introspection command not modelled")
 	}
 	return c.exec(args)
